@@ -567,6 +567,27 @@ fn run(ctx: &mut Ctx) {
     let tier = ctx.tier;
     let cfg = ValueCfg::default_dialect(tier.pick(5, 8), tier.pick(60, 200));
     ctx.run_prop("kinds", tier.pick(30_000, 1_000_000), g_value(cfg), check_kinds);
+    // symbols, keywords and strings whose text looks like the notation of
+    // another kind (`:foo` as a symbol, `#:k` as a string, `nil`, `#t`, `1`, ...)
+    ctx.run_prop(
+        "kinds-lookalike",
+        tier.pick(10_000, 200_000),
+        (
+            proptest::sample::select(vec!["#:", ":", "#", "'", "\"", "(", "#\\", "?", "|", "#%", "", "#u8(", "#t", "#f", "nil", "t", "#nil", "-", "+", ".", "1", "1.5", "#x1", "()", "[", ";"]),
+            "[a-z]{0,3}",
+            proptest::sample::select(vec![":", "\"", ")", "|", "", "", "]", "#", "."]),
+            0u8..3,
+        )
+            .prop_map(|(a, w, b, k)| {
+                let t = format!("{}{}{}", a, w, b);
+                match k {
+                    0 => MV::Sym(t),
+                    1 => MV::Kw(t),
+                    _ => MV::Str(t),
+                }
+            }),
+        check_kinds,
+    );
     ctx.run_prop("conv", tier.pick(60_000, 3_000_000), g_prim(), check_conv);
     ctx.run_prop("cmp", tier.pick(120_000, 6_000_000), g_cmp_pair(), |(v, p)| check_cmp(v, p));
     // exhaustive small widths
